@@ -138,6 +138,16 @@ def oracle(ck):
         inb = (fr >= a) & (fr <= b)
         if np.max(Y[~inb], initial=0.0) > 1e-9 or (inb.any() and np.max(np.abs(Y[inb] - 1)) > 1e-9):
             ck.violation("band_limited_noise(%g, %g): spectrum is not 1 inside / 0 outside the band" % (a, b), dict(min_freq=a, max_freq=b, samples=ns, samplerate=sr), tag="band")
+    # bands narrower than the bin spacing: strictly between two bins (no in-band bin: nothing may be excited), and exactly one bin
+    for ns, sr in ((1000, 1000.0), (33, 1.0), (256, 100.0)):
+        k = ck.rng.randint(2, ns // 2 - 2); df_ = sr / ns
+        for a, b in (((k + 0.2) * df_, (k + 0.7) * df_), (k * df_, k * df_), ((k - 0.4) * df_, (k + 0.4) * df_)):
+            y = NZ.band_limited_noise(a, b, samples=ns, samplerate=sr, rng=np.random.default_rng(ck.rng.randint(0, 2 ** 31)))
+            fr = np.abs(np.fft.fftfreq(ns, d=1.0 / sr)); Y = np.abs(np.fft.fft(y))
+            inb = (fr >= a) & (fr <= b)
+            if np.max(Y[~inb], initial=0.0) > 1e-9 or (inb.any() and np.max(np.abs(Y[inb] - 1)) > 1e-9):
+                ck.violation("band_limited_noise(%r, %r) with bin spacing %g: power outside the band (max out-of-band magnitude %g)" % (a, b, df_, float(np.max(Y[~inb], initial=0.0))),
+                             dict(min_freq=a, max_freq=b, samples=ns, samplerate=sr), tag="band")
     ck.cov["oracle_cases"] = n
 
 
